@@ -176,6 +176,12 @@ func c14Check(ci interface{}) lib.Outcome {
 	if firstBad != "" {
 		return lib.Outcome{Violation: firstBad}
 	}
+	// afterwards, sequentially: whatever the concurrent phase left behind must not show in later calls
+	for i := range queries {
+		if got := c14Render(cl.MultipleMatch(queries[i])); got != refMulti[i] {
+			return lib.Outcome{Violation: fmt.Sprintf("after the concurrent phase, a sequential MultipleMatch(query %d) = %s, but a fresh classifier gives %s", i, got, refMulti[i])}
+		}
+	}
 	if sameKeyCalls > 0 && sameKeyOK != 1 {
 		return lib.Outcome{Violation: fmt.Sprintf("%d concurrent AddValue calls with the same new key: %d of them succeeded, sequentially exactly one does", sameKeyCalls, sameKeyOK)}
 	}
